@@ -16,10 +16,14 @@ pub struct Case {
     pub tree: Tree,
 }
 
-fn strategy(_tier: Tier) -> BoxedStrategy<Case> {
-    tree::opts_tree_strategy(TreeCfg::full())
-        .prop_map(|(opts, tree)| Case { opts, tree })
-        .boxed()
+fn strategy(tier: Tier) -> BoxedStrategy<Case> {
+    prop_oneof![
+        200 => tree::opts_tree_strategy(TreeCfg::full()),
+        // wide trees: > 100 distinct blocks; in the thorough tier occasionally > 10 000 hunks
+        1 => tree::wide_strategy(tier == Tier::Thorough),
+    ]
+    .prop_map(|(opts, tree)| Case { opts, tree })
+    .boxed()
 }
 
 fn run(case: &Case, cx: &mut Cx) -> CaseResult {
@@ -120,6 +124,8 @@ fn classify(case: &Case, arch: &std::path::Path, cx: &mut Cx) {
     cx.label_if(neg_frac, "pre1970-with-nanos");
     cx.label_if(combined && multi_block, "combined+multiblock");
     cx.label_if(t.0.len() <= 2, "tiny-tree");
+    cx.label_if(ra.blocks.len() > 100, ">100-blocks");
+    cx.label_if(hunks > 10_000, ">10000-hunks");
     cx.nontrivial = nonempty_file && feats >= 2;
 }
 
@@ -127,7 +133,7 @@ pub fn prop() -> Prop<Case> {
     Prop {
         id: "C01",
         level: "exploration",
-        rule: "case = (options triple, generated tree <=40 nodes); non-trivial iff the tree has a non-empty file and >=2 of {combined block with >=2 files, file spanning >=2 blocks, file at exact block multiple, setuid/setgid/sticky bit, pre-1970 or sub-second mtime, non-ASCII name, symlink, non-root owner, >=2 index hunks} as measured from the independently decoded archive; distinct = distinct case JSON hash",
+        rule: "case = (options triple, generated tree <=40 nodes; 0.5% of cases are 'wide' trees of 110-320 files in 1-3 directories with mostly one block per file, and in the thorough tier occasionally > 10 000 files with one entry per hunk); non-trivial iff the tree has a non-empty file and >=2 of {combined block with >=2 files, file spanning >=2 blocks, file at exact block multiple, setuid/setgid/sticky bit, pre-1970 or sub-second mtime, non-ASCII name, symlink, non-root owner, >=2 index hunks} as measured from the independently decoded archive; distinct = distinct case JSON hash",
         assumptions: &[
             "runs as root on tmpfs; owners drawn from ids with names in /etc/passwd and /etc/group",
             "snapshot oracle uses lstat/readlink/read only (no conserve code)",
